@@ -4,6 +4,8 @@ mod messages;
 
 pub use actor::{spawn_keyspace, KeyspaceActor};
 pub use group::{KeyspaceGroup, KeyspaceInfo, KeyspaceTimestamps};
+#[cfg(feature = "verif-hooks")]
+pub use messages::PurgeDeletes;
 pub use messages::{
     Del,
     Diff,
